@@ -143,6 +143,9 @@ static void pend_del(struct lp_msg *m)
 }
 
 extern double fakempi_min_in_flight(void) __attribute__((weak));
+extern uint64_t fm_sent __attribute__((weak)), fm_matched __attribute__((weak)), fm_reordered __attribute__((weak)),
+    fm_empty_probes __attribute__((weak)), fm_delayed __attribute__((weak)), fm_coll __attribute__((weak)),
+    fm_coll_delayed __attribute__((weak)), fm_late_reads __attribute__((weak));
 static void ea_on_extract(struct lp_msg *m);
 
 static inline uint64_t dbl_bits_(double d)
@@ -1498,11 +1501,16 @@ void engine_fill_result(char *buf, size_t n)
 		votes += TC[v].votes;
 	snprintf(buf, n,
 	    "eng=tw ranks=%lld thr=%lld lps=%lld ckpt=%lld gvtp=%lld serial=%lld refev=%zu fw=%llu sil=%llu rb=%llu undone=%llu ck=%llu "
-	    "anti=%llu ins=%llu ext=%llu fossil=%llu committed=%llu gvts=%u votes=%u fgvt=%g stop=%d fin=%016llx maxrb=%llu balloc=%llu bfree=%llu drvrel=%llu",
+	    "anti=%llu ins=%llu ext=%llu fossil=%llu committed=%llu gvts=%u votes=%u fgvt=%g stop=%d fin=%016llx maxrb=%llu balloc=%llu bfree=%llu drvrel=%llu "
+	    "f_mpisent=%llu f_mpidelay=%llu f_mpireorder=%llu f_mpiempty=%llu f_mpicoll=%llu f_mpicolldelay=%llu f_mpilateread=%llu f_drvgvt=%llu",
 	    (long long)P.n_ranks, (long long)P.n_threads, (long long)P.n_lps, (long long)P.ckpt_interval, (long long)P.gvt_period,
 	    (long long)P.serial, ref_total_events, (unsigned long long)M.n_forward, (unsigned long long)M.n_silent,
 	    (unsigned long long)M.n_rollbacks, (unsigned long long)M.n_undone, (unsigned long long)M.n_ckpt, (unsigned long long)M.n_anti,
 	    (unsigned long long)M.n_insert, (unsigned long long)M.n_extract, (unsigned long long)M.n_fossil,
 	    (unsigned long long)M.n_committed, M.rounds_known, votes, M.final_gvt > 1e300 ? -1.0 : M.final_gvt, M.stop_called,
-	    (unsigned long long)fin, (unsigned long long)M.max_rb_depth, (unsigned long long)buf_allocs, (unsigned long long)buf_frees, (unsigned long long)drv_released);
+	    (unsigned long long)fin, (unsigned long long)M.max_rb_depth, (unsigned long long)buf_allocs, (unsigned long long)buf_frees, (unsigned long long)drv_released,
+	    (unsigned long long)(&fm_sent ? fm_sent : 0), (unsigned long long)(&fm_delayed ? fm_delayed : 0),
+	    (unsigned long long)(&fm_reordered ? fm_reordered : 0), (unsigned long long)(&fm_empty_probes ? fm_empty_probes : 0),
+	    (unsigned long long)(&fm_coll ? fm_coll : 0), (unsigned long long)(&fm_coll_delayed ? fm_coll_delayed : 0),
+	    (unsigned long long)(&fm_late_reads ? fm_late_reads : 0), (unsigned long long)drv_gvts);
 }
